@@ -200,10 +200,9 @@ def inverse_rules(repo, rep):
         rep.undecided('R-FORMULA', base + 'shape', w, 'xyz2llh does not evaluate to a triple')
         return
     lat, lon, h = val.items
-    # compared as an angle: choosing +180 for -180 (one representative of the anti-meridian) is the same longitude, still inside [-180, 180]
-    from ..symcheck import strip_turn_folds
-    check_equal(rep, 'R-FORMULA', base + 'lon', w, strip_turn_folds(lon), alg.degrees(alg.atan2(Rat.sym('y'), Rat.sym('x'))),
-                'longitude = degrees(atan2(y, x)) (range [-180, 180] by the range of atan2; modulo a full turn)')
+    # (compared as a NUMBER, not modulo a turn: the property wants the representative in [-180, 180], which is the range of atan2)
+    check_equal(rep, 'R-FORMULA', base + 'lon', w, lon, alg.degrees(alg.atan2(Rat.sym('y'), Rat.sym('x'))),
+                'longitude = degrees(atan2(y, x)) (range [-180, 180] by the range of atan2)')
     loops = ev.loops.get(f.key, [])
     orc = Oracle(ORACLE)
     a, e2 = E.fields['semimaj'], E.fields['ecc1sq']
